@@ -81,8 +81,20 @@ def judge(data, expected, res, strict_400_body=False):
     Returns a Verdict."""
     v = Verdict()
     calls = res.calls
-    methods = [c.environ.get("REQUEST_METHOD") for c in calls] + [None, None]
-    resps, werr, leftover = rs.parse_responses(res.wire, methods, eof=res.closed)
+    methods = [c.environ.get("REQUEST_METHOD") for c in calls]
+    # an error response to a refused HEAD request carries no body either
+    tail = None
+    for o in expected:
+        if o.kind != "deliver" or len(methods) < 1 + expected.index(o):
+            rest = data[o.start:].lstrip(b"\r\n")
+            tail = "HEAD" if rest.startswith(b"HEAD ") else None
+            break
+    resps, werr, leftover = rs.parse_responses(res.wire, methods + [None, None], eof=res.closed)
+    if werr is not None and tail == "HEAD":
+        # the server may or may not have got as far as learning the method
+        r2 = rs.parse_responses(res.wire, methods + ["HEAD", None], eof=res.closed)
+        if r2[1] is None:
+            resps, werr, leftover = r2
     finals = [r for r in resps if not r["interim"]]
 
     def bad(key, what):
